@@ -280,6 +280,10 @@ func (r *Run) Finish() {
 	if len(r.harnessEr) > 0 {
 		e["harness_errors"] = r.harnessEr
 	}
+	if pfx := os.Getenv("VERIF_EVIDENCE_MERGE"); pfx != "" && !r.NoWrite && r.Replay == "" {
+		// Second engine of a property: fold this run into the evidence file the first engine wrote.
+		e = mergeEvidence(filepath.Join(Root(), "evidence", r.ID+".json"), pfx, e)
+	}
 	if !r.NoWrite && r.Replay == "" {
 		dir := filepath.Join(Root(), "evidence")
 		_ = os.MkdirAll(dir, 0o755)
@@ -299,7 +303,7 @@ func (r *Run) Finish() {
 		if path == "" {
 			dir := filepath.Join(Root(), "replays", r.ID)
 			_ = os.MkdirAll(dir, 0o755)
-			path = filepath.Join(dir, fmt.Sprintf("%s-%s-%d.json", r.ID, r.Tier, i))
+			path = filepath.Join(dir, fmt.Sprintf("%s-%s-%s%d.json", r.ID, r.Tier, os.Getenv("VERIF_EVIDENCE_MERGE"), i))
 			b, _ := json.MarshalIndent(v, "", " ")
 			_ = os.WriteFile(path, append(b, '\n'), 0o644)
 		}
@@ -314,6 +318,84 @@ func (r *Run) Finish() {
 		os.Exit(2)
 	}
 	os.Exit(0)
+}
+
+// mergeEvidence folds the evidence of a second engine (keys prefixed) into the
+// evidence the first engine wrote for the same property and tier.
+func mergeEvidence(path, pfx string, e map[string]any) map[string]any {
+	b, err := os.ReadFile(path)
+	if err != nil {
+		return e
+	}
+	var first map[string]any
+	if json.Unmarshal(b, &first) != nil || first["property_id"] != e["property_id"] || first["tier"] != e["tier"] {
+		return e
+	}
+	fc, _ := first["coverage"].(map[string]any)
+	sc, _ := e["coverage"].(map[string]any)
+	if fc == nil || sc == nil {
+		return e
+	}
+	num := func(v any) float64 {
+		switch x := v.(type) {
+		case float64:
+			return x
+		case int:
+			return float64(x)
+		case int64:
+			return float64(x)
+		}
+		return 0
+	}
+	for k, v := range sc {
+		switch k {
+		case "states", "transitions", "traces_validated_against_impl", "distinct_outcomes":
+			fc[pfx+"_"+k] = v
+			fc[k] = num(fc[k]) + num(v)
+		case "exhaustive":
+			fb, _ := fc[k].(bool)
+			sb, _ := v.(bool)
+			fc[k] = fb && sb
+		case "samples":
+			fs, _ := fc[k].([]any)
+			ss, _ := v.([]any)
+			fc[k] = append(fs, ss...)
+		case "caps_hit":
+			fs, _ := fc[k].([]any)
+			for _, c := range v.([]string) {
+				fs = append(fs, pfx+": "+c)
+			}
+			fc[k] = fs
+		default:
+			if _, clash := fc[k]; clash {
+				fc[pfx+"_"+k] = v
+			} else {
+				fc[k] = v
+			}
+		}
+	}
+	as, _ := first["assumptions"].([]any)
+	for _, a := range e["assumptions"].([]string) {
+		as = append(as, a)
+	}
+	first["assumptions"] = as
+	first["violations"] = num(first["violations"]) + num(e["violations"])
+	first["wall_s"] = num(first["wall_s"]) + num(e["wall_s"])
+	if k2, ok := e["known_findings_hit"]; ok {
+		k1, _ := first["known_findings_hit"].([]any)
+		for _, k := range k2.([]string) {
+			k1 = append(k1, k)
+		}
+		first["known_findings_hit"] = k1
+	}
+	if h2, ok := e["harness_errors"]; ok {
+		h1, _ := first["harness_errors"].([]any)
+		for _, h := range h2.([]string) {
+			h1 = append(h1, h)
+		}
+		first["harness_errors"] = h1
+	}
+	return first
 }
 
 func brief(cov map[string]any) string {
